@@ -21,7 +21,7 @@ def numden(t, cache=None):
     cache = {}
   key = t.get_id()
   if key in cache:
-    return cache[key]
+    return cache[key][:2]
   res = None
   if z3.is_app(t) and t.sort() == core.R:
     k = t.decl().kind()
@@ -63,7 +63,8 @@ def numden(t, cache=None):
         res = (n, d)
   if res is None:
     res = (t, None)
-  cache[key] = res
+  # keep t alive with its entry: z3 reuses the ids of freed terms
+  cache[key] = (res[0], res[1], t)
   return res
 
 
